@@ -410,6 +410,8 @@ func c01BigCase(t *rapid.T) {
 	stats.C.Sample(fmt.Sprintf("big hash: %d pairs, %d value bytes, delivered in %d records, labels %v", bh.n, len(bh.pairBytes), len(chunks), labelList(f.Labels)))
 }
 
+func appendCRC(b []byte) []byte { return binary.LittleEndian.AppendUint64(b, ref.CRC64(0, b)) }
+
 func firstDiff(a, b []byte) int {
 	n := len(a)
 	if len(b) < n {
